@@ -181,4 +181,173 @@ Section Inv.
   Proof.
     intros. unfold StateLockLTS.new_inst. destruct (g_state G); simpl; rewrite app_length; simpl; lia.
   Qed.
+
+  Ltac inv H := inversion H; subst; clear H.
+
+  (* break a successful pstep into its defining equations *)
+  Ltac unstep H :=
+    repeat match type of H with
+    | match ?e with _ => _ end = Some _ => let E := fresh "E" in destruct e eqn:E; try discriminate H
+    | (let '(_, _) := ?e in _) = Some _ => let E := fresh "E" in destruct e eqn:E
+    end.
+
+  Lemma eqb_pair_cases : forall (i i' : nat) (n n' : N),
+    {i = i' /\ n = n'} + {i <> i' \/ n <> n'}.
+  Proof.
+    intros. destruct (Nat.eq_dec i i'); destruct (N.eq_dec n n'); auto.
+  Qed.
+
+  (* status update of one node that keeps the instance's object *)
+  Lemma cs_of_upd_node : forall c c0 i J n s i' n',
+    c_insts c0 = c_insts c ->
+    nth_error (c_insts c) i = Some J ->
+    cs_of (set_inst S X c0 i (set_ns S X J n s)) i' n' =
+    if Nat.eqb i i' && N.eqb n' n then (match ns_cs s with Some _ => i_obj J | None => None end)
+    else cs_of c i' n'.
+  Proof.
+    intros. rewrite cs_of_set_inst by (rewrite H; eapply nth_some_lt; eauto).
+    destruct (Nat.eqb_spec i i'); simpl.
+    - subst. rewrite get_set_ns. destruct (N.eqb n' n); auto.
+      unfold cs_of. rewrite H0. auto.
+    - unfold cs_of. rewrite H. auto.
+  Qed.
+
+  Lemma cs_of_doneq : forall c c0 i J n s q i' n',
+    c_insts c0 = c_insts c ->
+    nth_error (c_insts c) i = Some J ->
+    cs_of (set_inst S X c0 i (set_doneq S X (set_ns S X J n s) q)) i' n' =
+    cs_of (set_inst S X c0 i (set_ns S X J n s)) i' n'.
+  Proof.
+    intros. rewrite !cs_of_set_inst by (rewrite H; eapply nth_some_lt; eauto). reflexivity.
+  Qed.
+
+  Lemma inv_lock_init : inv_lock (init_cfg S X).
+  Proof.
+    intros i n o. unfold cs_of, holder; simpl. destruct i, o; simpl; split; discriminate.
+  Qed.
+
+  Lemma cs_of_insts_eq : forall c1 c2 i n, c_insts c1 = c_insts c2 -> cs_of c1 i n = cs_of c2 i n.
+  Proof. intros. unfold cs_of. rewrite H. reflexivity. Qed.
+  Lemma holder_objs_eq : forall c1 c2 o, c_objs c1 = c_objs c2 -> holder c1 o = holder c2 o.
+  Proof. intros. unfold holder. rewrite H. reflexivity. Qed.
+
+  (* ---------------------------------------------------------------- inversion of pstep *)
+
+  Definition add_trace (c : config) (e : tentry X) : config :=
+    mkCfg (c_insts c) (c_objs c) (c_trace c ++ [e]) (c_gens c).
+
+  Lemma pstep_start_inv : forall c r c', pstep c (ChStart r) = Some c' ->
+    exists G, nth_error f 0 = Some G /\ c' = new_inst c r 0 G None None x0.
+  Proof. intros. simpl in H. unstep H. inv H. eauto. Qed.
+
+  Lemma pstep_acq_inv : forall c i n c', pstep c (ChAcq i n) = Some c' ->
+    exists J a p k x o v v0 oi,
+      lookup c i n = Some (J, a, mkNs p None) /\ next_cs X a p = Some k /\ pos_x X p = Some x /\
+      i_obj J = Some o /\ nth_error (c_objs c) o = Some (mkObj v None v0 oi) /\
+      c' = set_inst S X (add_trace (set_obj S X c o (mkObj v (Some (i, n)) v0 oi)) (mkT o i a k x)) i
+                    (set_ns S X J n (mkNs p (Some CsAcq))).
+  Proof.
+    intros. simpl in H. unstep H. inv H. repeat eexists; eauto.
+  Qed.
+
+  Lemma pstep_load_inv : forall c i n c', pstep c (ChLoad i n) = Some c' ->
+    exists J a p o r,
+      lookup c i n = Some (J, a, mkNs p (Some CsAcq)) /\ i_obj J = Some o /\
+      nth_error (c_objs c) o = Some r /\
+      c' = set_inst S X c i (set_ns S X J n (mkNs p (Some (CsLoaded (o_val r))))).
+  Proof.
+    intros. simpl in H. unstep H. inv H. repeat eexists; eauto.
+  Qed.
+
+  Lemma pstep_store_inv : forall c i n c', pstep c (ChStore i n) = Some c' ->
+    exists J a p l k x o r x' s',
+      lookup c i n = Some (J, a, mkNs p (Some (CsLoaded l))) /\ next_cs X a p = Some k /\
+      pos_x X p = Some x /\ i_obj J = Some o /\ nth_error (c_objs c) o = Some r /\
+      hfun k (n_id a) x l = (x', s') /\
+      c' = set_inst S X (set_obj S X c o (mkObj s' (o_holder r) (o_init r) (o_inst r))) i
+                    (set_ns S X J n (mkNs (set_x X p x') (Some CsStored))).
+  Proof.
+    intros. simpl in H. unstep H. inv H. repeat eexists; eauto.
+  Qed.
+
+  Lemma pstep_rel_inv : forall c i n c', pstep c (ChRel i n) = Some c' ->
+    exists J a p o r q,
+      lookup c i n = Some (J, a, mkNs p (Some CsStored)) /\ i_obj J = Some o /\
+      nth_error (c_objs c) o = Some r /\
+      c' = set_inst S X (set_obj S X c o (mkObj (o_val r) None (o_init r) (o_inst r))) i
+                    (set_doneq S X (set_ns S X J n (mkNs (after_cs X p) None)) q).
+  Proof.
+    intros. simpl in H.
+    destruct (lookup c i n) as [[[J a] [p cs]]|] eqn:El; [|discriminate].
+    destruct cs as [[| |]|]; try discriminate.
+    destruct (i_obj J) as [o|] eqn:Eo; [|discriminate].
+    destruct (nth_error (c_objs c) o) as [r|] eqn:Er; [|discriminate].
+    exists J, a, p, o, r.
+    destruct p; inv H;
+      try (exists (i_doneq J); repeat split; auto; reflexivity).
+    eexists. repeat split; auto.
+  Qed.
+
+  Lemma pstep_resume_inv : forall c o m c', pstep c (ChResume o m) = Some c' ->
+    exists v v0 oi,
+      nth_error (c_objs c) o = Some (mkObj v None v0 oi) /\
+      c' = mkCfg (map (fun J => match i_obj J with
+                                | Some o1 => if Nat.eqb o1 o then set_iobj S X J (Some (List.length (c_objs c))) else J
+                                | None => J end) (c_insts c))
+                 (c_objs c ++ [mkObj (m v) None (m v) oi]) (c_trace c) (c_gens c).
+  Proof.
+    intros. simpl in H. unstep H. inv H. repeat eexists; eauto.
+  Qed.
+
+  (* how a position changes in a ChAdv step that does not start a nested graph *)
+  Inductive adv_pos (c : config) (J : inst) (a : node) : pos X -> pos X -> Prop :=
+  | adv_start : n_preds a = [] -> adv_pos c J a PWait (PReady (i_in J))
+  | adv_join : forall ys, n_preds a <> [] -> omapM (final_of S X J) (n_preds a) = Some ys ->
+               adv_pos c J a PWait (PReady (mrg ys))
+  | adv_nopre : forall x, adv_pos c J a (PReady x) (PPred x)
+  | adv_spawn : forall x, n_sub a = None -> adv_pos c J a (PPred x) (PRun x 0)
+  | adv_finish : forall x j, n_sub a = None -> adv_pos c J a (PRun x j) (PDone (lout (n_id a) x))
+  | adv_subdone : forall ci CI CG ys, nth_error (c_insts c) ci = Some CI ->
+               nth_error f (i_graph CI) = Some CG ->
+               omapM (fun s => final_of S X CI (n_id s)) (sinks CG) = Some ys ->
+               adv_pos c J a (PSub ci) (PDone (mrg ys))
+  | adv_collect : forall y, adv_pos c J a (PDone y) (PFin y).
+
+  Lemma pstep_adv_inv : forall c i n c', pstep c (ChAdv i n) = Some c' ->
+    exists J a p,
+      lookup c i n = Some (J, a, mkNs p None) /\ next_cs X a p = None /\
+      ((exists p' q, adv_pos c J a p p' /\
+                     c' = set_inst S X c i (set_doneq S X (set_ns S X J n (mkNs p' None)) q))
+       \/
+       (exists x g G, p = PPred x /\ n_sub a = Some g /\ nth_error f g = Some G /\
+                      c' = set_inst S X (new_inst c (i_run J) g G (Some i) (i_obj J) x) i
+                                    (set_ns S X J n (mkNs (PSub (List.length (c_insts c))) None)))).
+  Proof.
+    intros. simpl in H.
+    destruct (lookup c i n) as [[[J a] [p cs]]|] eqn:El; [|discriminate].
+    destruct cs; [discriminate|].
+    destruct (next_cs X a p) eqn:En; [discriminate|].
+    exists J, a, p. split; [auto|split; [auto|]].
+    destruct p.
+    - destruct (n_preds a) eqn:Ep.
+      + inv H. left. exists (PReady (i_in J)), (i_doneq J). split; [constructor; auto|reflexivity].
+      + change (match final_of S X J n0 with
+                | Some b => match omapM (final_of S X J) l with Some bs => Some (b :: bs) | None => None end
+                | None => None end) with (omapM (final_of S X J) (n0 :: l)) in H.
+        destruct (omapM (final_of S X J) (n0 :: l)) eqn:Eo; [|discriminate]. inv H.
+        left. exists (PReady (mrg l0)), (i_doneq J). split; [|reflexivity].
+        apply adv_join; rewrite Ep; [discriminate|auto].
+    - inv H. left. exists (PPred x), (i_doneq J). split; [constructor|reflexivity].
+    - destruct (n_sub a) eqn:Es.
+      + destruct (nth_error f n0) eqn:EG; [|discriminate]. inv H. right. eauto 10.
+      + inv H. left. exists (PRun x 0), (i_doneq J). split; [constructor; auto|reflexivity].
+    - destruct (n_sub a) eqn:Es; [discriminate|]. inv H. left.
+      eexists _, _. split; [eapply adv_finish; auto|reflexivity].
+    - destruct (nth_error (c_insts c) ci) eqn:Ec; [|discriminate].
+      destruct (nth_error f (i_graph i0)) eqn:EG; [|discriminate].
+      destruct (omapM (fun s : node => final_of S X i0 (n_id s)) (sinks g)) eqn:Eo; [|discriminate].
+      inv H. left. eexists _, _. split; [eapply adv_subdone; eauto|reflexivity].
+    - inv H. left. eexists _, _. split; [apply adv_collect|reflexivity].
+    - discriminate.
+  Qed.
 End Inv.
